@@ -262,7 +262,9 @@ var paramNames = []string{"a", "b", "c", "d", "ctx", "id", "url", "key", "val", 
 	"foo", "alpha", "bar", "sync", "context", "time", "io", "fmt", "x1", "http", "json", "uuid", "m", "i", "v", "ok",
 	"calls", "lock", "yfoo", "widget", "s1", "n1", "fn", "ifaceVal", "val1", "aMoqParam", "errOut", "sOut"}
 
-var methodNames = []string{"Get", "Put", "Del", "Fetch", "Store", "Visit", "Open", "Run", "Len", "Each", "Walk", "Send", "Recv", "Ping", "Query", "Exec"}
+// method names include mis-cased initialisms (Id, Url, ...): generated identifiers must keep them verbatim
+var methodNames = []string{"Get", "Put", "Del", "Fetch", "Store", "Visit", "Open", "Run", "Len", "Each", "Walk", "Send", "Recv", "Ping", "Query", "Exec",
+	"Id", "Url", "Http", "Api", "Json", "Uuid"}
 
 type embed struct{ typ, method string }
 
@@ -275,9 +277,16 @@ func (g *gen) signature() string {
 	variadic := np > 0 && g.tp.Int(4) == 0
 	var ps []string
 	for i := 0; i < np; i++ {
-		t := g.typ(0)
+		var t string
 		if variadic && i == np-1 {
+			if g.tp.Int(3) == 0 {
+				t = g.pick([]string{"any", "interface{}"})
+			} else {
+				t = g.typ(0)
+			}
 			t = "..." + t
+		} else {
+			t = g.typ(0)
 		}
 		switch named {
 		case 1:
@@ -355,7 +364,7 @@ type Impl int
 func (Impl) String() string { return "impl" }
 `
 
-func (g *gen) iface(name string) (string, Iface) {
+func (g *gen) iface(name string, shared *embed, extra []string) (string, Iface) {
 	var b strings.Builder
 	out := Iface{Name: name}
 	g.tparams = nil
@@ -381,8 +390,18 @@ func (g *gen) iface(name string) (string, Iface) {
 		header += "[" + strings.Join(decl, ", ") + "]"
 	}
 	fmt.Fprintf(&b, "type %s interface {\n", header)
-	taken := map[string]bool{}
-	if g.tp.Int(4) == 0 {
+	taken := map[string]bool{"Swap": true}
+	if g.tp.Int(8) == 0 {
+		// a method-less interface (legal, and a corner several code paths special-case)
+		b.WriteString("}\n")
+		return b.String(), out
+	}
+	if shared != nil && g.tp.Int(3) != 0 {
+		g.use(shared.typ)
+		fmt.Fprintf(&b, "\t%s\n", shared.typ)
+		taken[shared.method] = true
+		out.Methods++
+	} else if g.tp.Int(4) == 0 {
 		e := embeds[g.tp.Int(len(embeds))]
 		g.use(e.typ)
 		fmt.Fprintf(&b, "\t%s\n", e.typ)
@@ -405,6 +424,10 @@ func (g *gen) iface(name string) (string, Iface) {
 		fmt.Fprintf(&b, "\t%s%s\n", mn, g.signature())
 		out.Methods++
 	}
+	for _, e := range extra {
+		fmt.Fprintf(&b, "\t%s\n", e)
+		out.Methods++
+	}
 	b.WriteString("}\n")
 	return b.String(), out
 }
@@ -419,8 +442,30 @@ func Generate(spec Spec) *Corpus {
 		p := &Pkg{ID: fmt.Sprintf("p%02d", pi), Name: fmt.Sprintf("p%02d", pi)}
 		var body strings.Builder
 		ni := 1 + tp.Int(3)
+		// interfaces of one package may share an embedded interface (the same
+		// method objects reach several mocks of one moq run) ...
+		var shared *embed
+		if tp.Bool() {
+			shared = &embeds[tp.Int(len(embeds))]
+		}
+		// ... and may have a same-named method whose parameter names are
+		// permuted between them (same types in the same positions)
+		var siblings [][]string
+		if ni > 1 && tp.Int(3) == 0 {
+			g.tparams = nil
+			t := g.typ(1)
+			siblings = [][]string{
+				{fmt.Sprintf("Swap(first %s, second %s, n int) (%s, error)", t, t, t)},
+				{fmt.Sprintf("Swap(second %s, first %s, n int) (%s, error)", t, t, t)},
+				{fmt.Sprintf("Swap(n %s, second %s, first int) (%s, error)", t, t, t)},
+			}
+		}
 		for k := 0; k < ni; k++ {
-			src, ifc := g.iface(fmt.Sprintf("Iface%02d%c", pi, 'A'+k))
+			var extra []string
+			if siblings != nil {
+				extra = siblings[k]
+			}
+			src, ifc := g.iface(fmt.Sprintf("Iface%02d%c", pi, 'A'+k), shared, extra)
 			body.WriteString("\n" + src)
 			p.Ifaces = append(p.Ifaces, ifc)
 		}
